@@ -14,6 +14,16 @@ CLAIMED = {
          "All reachable shapes of the bounded universe."),
  "C04": ("model_checking", "TLC invariant count = number of valued reachable nodes; len()/is_empty()/iter().count() compared after every replayed transition",
          "Every transition of the bounded universe executed on the code; len() is compared with iteration after each."),
+ "C05": ("model_checking", "TLC over pairs of maps: union stack machine vs abstract union for every pair of view roots; rows replayed on the code (map/map, map/String-map, map/set, set/set)",
+         "Pairs of reachable shapes (canonical x canonical up to 3 entries each, shapes with value-less leftovers x canonical) x all 49 pairs of view roots (stored, branching, virtual, nested, disjoint)."),
+ "C06": ("model_checking", "TLC over pairs of maps: intersection stack machine vs abstract intersection for every pair of view roots; rows replayed on the code",
+         "As C05."),
+ "C07": ("model_checking", "TLC over pairs of maps: difference and covering-difference stack machines vs abstract definitions; rows replayed on the code",
+         "As C05, including b empty, b holding the zero-length prefix, b's root below or beside a's root."),
+ "C08": ("model_checking", "TLC over pairs of maps: inherited-LPM bookkeeping of union/difference vs declarative LPM in the other view's entries; rows replayed on the code",
+         "As C05; the annotation fields of every one-sided item are compared."),
+ "C19": ("model_checking", "TLC over pairs of maps: PartialEq algorithm vs equality of sorted entry sequences; ==, != in both directions replayed on the code",
+         "Pairs of reachable states incl. strict-prefix pairs, empty map, equal contents with different shapes."),
  "C09": ("model_checking", "TLC: cover/spm walks = declarative covering entries by length; rows replayed on the code",
          "All reachable shapes x all queries of the bounded universe."),
  "C10": ("model_checking", "TLC: children start / remove_children / recursive retain (all keep-sets, call log) vs abstract definitions; rows replayed on the code",
